@@ -389,7 +389,7 @@ func c09GenConc(rng *rand.Rand, tier string, emit func(string)) {
 	flavours := []string{"mixed", "d1", "egf", "mixed", "short", "mixed"}
 	g, scale := 8, 1
 	if tier == "thorough" {
-		flavours = []string{"mixed", "d1", "egf", "mixed", "short", "mixed", "egf", "mixed", "d1", "mixed", "short", "mixed", "egf", "mixed"}
+		flavours = []string{"mixed", "d1", "egf", "mixed", "short", "mixed", "mixed", "d1", "mixed", "short", "egf", "mixed"}
 		g, scale = 16, 2
 	}
 	hexsub := func(kind, buf string, e int, a, b []byte) string {
@@ -427,7 +427,10 @@ func c09GenConc(rng *rand.Rand, tier string, emit func(string)) {
 		}
 		egf := func(i int, maxOver int) {
 			// the shorter sequence is an edited factor of the longer one: free overhangs, end > 0
-			la := scale * (300 + rng.Intn(900))
+			la := 300 + rng.Intn(900)
+			if flavour == "mixed" {
+				la *= scale // (the end-gap-free band widens with the overhang: the egf flavour keeps to 300..1200 bases)
+			}
 			a := c09RandSeq(rng, la, iu)
 			lo := rng.Intn(40)
 			hi := la - rng.Intn(maxOver)
@@ -563,14 +566,18 @@ func c09RaceBuild() string {
 	bin := filepath.Join(binDir(), "harness_C09_race")
 	args := []string{"build", "-race", "-tags", "verif,c09", "-o", bin}
 	if repo != "/repo" {
-		// a scratch tree is under check: the driver wrote go.alt.mod (module replaced by that tree)
-		alt := filepath.Join(root, "harness", "go.alt.mod")
-		if b, err := os.ReadFile(alt); err == nil && strings.Contains(string(b), "=> "+repo) {
-			args = append(args, "-modfile", alt)
-		} else {
+		// a scratch tree is under check: an alternative go.mod (module replaced by that tree) next to its binaries
+		// (harness/go.alt.mod is shared by every check of a scratch tree running at the moment: not relied upon)
+		mod, err1 := os.ReadFile(filepath.Join(root, "harness", "go.mod"))
+		sum, err2 := os.ReadFile(filepath.Join(root, "harness", "go.sum"))
+		alt := filepath.Join(binDir(), "c09race.mod")
+		if err1 != nil || err2 != nil || !strings.Contains(string(mod), "=> /repo") ||
+			os.WriteFile(alt, []byte(strings.Replace(string(mod), "=> /repo", "=> "+repo, 1)), 0o644) != nil ||
+			os.WriteFile(filepath.Join(binDir(), "c09race.sum"), sum, 0o644) != nil {
 			stat("race-build:no-alt-mod")
 			return ""
 		}
+		args = append(args, "-modfile", alt)
 	}
 	build := exec.Command("go", append(args, ".")...)
 	build.Dir = filepath.Join(root, "harness")
